@@ -111,6 +111,15 @@ func goDecrypt(et int32, key, ct []byte, usage uint32) (pt []byte, err error, pa
 	pan3 := Protect(func() {
 		pt3, err3 = crypto.DecryptEncPart(types.EncryptedData{EType: et, KVNO: 1, Cipher: append([]byte{}, ct...)}, k, usage)
 	})
+	// an error comes with no plaintext at all: not a byte of what was decrypted on the way to the failure
+	for i, x := range []struct {
+		pt  []byte
+		err error
+	}{{pt, err}, {pt2, err2}, {pt3, err3}} {
+		if x.err != nil && len(x.pt) > 0 {
+			return nil, nil, fmt.Sprintf("DISAGREE entry point %d returns %d octets together with the error %v", i, len(x.pt), x.err)
+		}
+	}
 	if r2, r3 := decRes(pt2, err2, pan2), decRes(pt3, err3, pan3); r2 != first || r3 != first {
 		return nil, nil, fmt.Sprintf("DISAGREE etype method: %s, crypto.DecryptMessage: %s, crypto.DecryptEncPart: %s", cut(first, 40), cut(r2, 40), cut(r3, 40))
 	}
